@@ -108,6 +108,38 @@ pub mod proofs {
     #[kani::proof] #[kani::unwind(3)] pub fn c19_per_channel_gain_attack0() { per_channel(0.0, 7.0, true) }
     #[kani::proof] #[kani::unwind(3)] pub fn c19_per_channel_gain_release0() { per_channel(3.0, 0.0, false) }
 
+    /// every constructor maps (attack_frames, release_frames) to (attack gain, release gain) IN THAT ORDER: a time of 0 frames
+    /// gives gain exactly 0, any other time a non-zero gain (c19_gain_mapping), so swapped arguments are observable
+    #[kani::proof]
+    pub fn c19_constructors_keep_attack_and_release_apart() {
+        use dasp_envelope::detect::Peak;
+        use dasp_peak::{FullWave, NegativeHalfWave, PositiveHalfWave};
+        macro_rules! both { ($mk:expr) => {{
+            let mk = $mk;
+            let d = mk(0.0f32, 7.0f32);
+            let (ga, gr) = d.verif_gains();
+            assert!(ga == 0.0 && gr != 0.0, "P: attack = 0 frames, release = 7 frames");
+            let d = mk(3.0f32, 0.0f32);
+            let (ga, gr) = d.verif_gains();
+            assert!(ga != 0.0 && gr == 0.0, "P: attack = 3 frames, release = 0 frames");
+        }}; }
+        both!(|a, r| Detector::<[f32; 1], _>::peak(a, r));
+        both!(|a, r| Detector::<[f32; 1], _>::peak_positive_half_wave(a, r));
+        both!(|a, r| Detector::<[f32; 1], _>::peak_negative_half_wave(a, r));
+        both!(|a, r| Detector::<[f32; 1], _>::peak_from_rectifier(FullWave, a, r));
+        both!(|a, r| Detector::<[f32; 1], _>::peak_from_rectifier(NegativeHalfWave, a, r));
+        both!(|a, r| Detector::<[f32; 1], _>::new(Peak::positive_half_wave(), a, r));
+        both!(|a, r| Detector::<[f32; 1], _>::rms(rb::Fixed::from([[0.0f32; 1]; 2]), a, r));
+        // the rectifier chosen by the named constructor is the named one (negative half wave keeps the negative side)
+        let mut n = Detector::<[f32; 1], _>::peak_negative_half_wave(0.0, 0.0);
+        let x = dyadic(4, 4);
+        assert!(n.next([x])[0] == if x < 0.0 { x } else { 0.0 });
+        let mut p = Detector::<[f32; 1], _>::peak_positive_half_wave(0.0, 0.0);
+        assert!(p.next([x])[0] == if x > 0.0 { x } else { 0.0 });
+        let mut f = Detector::<[f32; 1], _>::peak(0.0, 0.0);
+        assert!(f.next([x])[0] == x.abs());
+    }
+
     /// no overshoot: for dyadic previous envelope and detected value (exact difference) the new envelope lies
     /// between them, and equals the detected value when the gain is 0
     #[kani::proof]
